@@ -13,7 +13,9 @@ namespace FrontFacts
     handful. Recursion along *dependency edges* is not accepted: a chain of thousands of operators
     is an ordinary model, Python's recursion limit is 1000 (the traversal is `iterative_dfs`). -/
 def nestingRecursion : List (String × String) :=
-  [("_build.py", "Builder.discover"), ("_standard.py", "_strip_dim_symbol"), ("_inline.py", "rename_in_graph")]
+  [("_build.py", "Builder.discover"), ("_standard.py", "_strip_dim_symbol"),
+   -- added with fix c899b77 (reviewed: recurses on `typ.elem_type` of Sequence/Optional only — type nesting)
+   ("_standard.py", "_dim_symbols"), ("_inline.py", "rename_in_graph")]
 
 def recursionOk (l : List (String × String)) : Bool := l.all nestingRecursion.contains
 
